@@ -108,6 +108,7 @@ type W struct {
 	Tier          string
 	maxViolPerKey int
 	lastBegin     int64 // unix nanos of the last Begin, 0 when idle
+	progress      int64 // bumped by every Count: harness-side progress inside one case
 	outPath       string
 }
 
@@ -162,6 +163,7 @@ func (w *W) End() {
 func (w *W) Seed() int64 { return w.batch.Seed }
 
 func (w *W) Count(name string, n int64) {
+	atomic.AddInt64(&w.progress, 1)
 	w.mu.Lock()
 	w.counts[name] += n
 	w.mu.Unlock()
@@ -324,16 +326,22 @@ func (w *W) caseWatchdog() {
 			continue
 		}
 		d1 := AllStacks()
+		p1 := atomic.LoadInt64(&w.progress)
 		time.Sleep(2 * time.Second)
 		if atomic.LoadInt64(&w.lastBegin) != lb {
 			continue
 		}
 		d2 := AllStacks()
+		p2 := atomic.LoadInt64(&w.progress)
 		f1, blk := harnessGoroutineFrame(d1)
 		f2, _ := harnessGoroutineFrame(d2)
 		desc := w.currentJournal()
-		if f1 != "?" && f1 == f2 {
-			w.ViolationStack("hang:running@"+f1, "a single call into the library did not return: two stack dumps "+"2s apart show the same library function still running", map[string]string{"journal": desc}, "no return after "+limit.String(), "the call returns", blk)
+		// the verdict is keyed by the library entry point the harness called
+		// (outermost library frame): a loop that calls helpers shows varying
+		// innermost frames. The harness must not have made progress either.
+		e1, e2 := OutermostVaxisFrame(blk), OutermostVaxisFrame(blockOf(d2))
+		if e1 != "?" && e1 == e2 && (f1 == f2 || p1 == p2) {
+			w.ViolationStack("hang:running@"+e1, "a single call into the library did not return: two stack dumps "+"2s apart show the same library call still running (innermost frames "+f1+" / "+f2+")", map[string]string{"journal": desc}, "no return after "+limit.String(), "the call returns", blk)
 		} else {
 			w.Inconclusive("case-watchdog-without-corroboration")
 		}
@@ -347,11 +355,35 @@ func (w *W) caseWatchdog() {
 // contains harness.WorkerMain) and returns its innermost vaxis frame.
 func harnessGoroutineFrame(dump string) (string, string) {
 	for _, blk := range strings.Split(dump, "\n\n") {
-		if strings.Contains(blk, "harness.WorkerMain") {
+		if strings.Contains(blk, "harness.WorkerMain(") && !strings.Contains(blk, "caseWatchdog") {
 			return InnermostVaxisFrame(blk), blk
 		}
 	}
 	return "?", ""
+}
+
+func blockOf(dump string) string {
+	_, b := harnessGoroutineFrame(dump)
+	return b
+}
+
+// OutermostVaxisFrame names the library function the harness called (the
+// library frame nearest to the harness frames).
+func OutermostVaxisFrame(stack string) string {
+	out := "?"
+	for _, l := range strings.Split(stack, "\n") {
+		if strings.HasPrefix(l, "\t") || !strings.Contains(l, "(") {
+			continue
+		}
+		if strings.HasPrefix(l, "git.sr.ht/~rockorager/vaxis") {
+			fn := l
+			if k := strings.LastIndex(fn, "("); k > 0 {
+				fn = fn[:k]
+			}
+			out = strings.TrimPrefix(fn, "git.sr.ht/~rockorager/")
+		}
+	}
+	return out
 }
 
 func (w *W) currentJournal() string {
